@@ -38,6 +38,11 @@ CHECKS = {
             "Every history of <=4 (quick) / <=5 (thorough) ops over {message, answered run, side effects, manual checkpoints at last/first message and by stride, auto, schedule variants, inflight job}; in the reached state cut points for 7 strides x 6 limits must equal the reference planner (warm store and a copy without caches); auto(stride,max_new) on copies must create exactly the planned checkpoints inside one job_spawned/job_ended bracket with readable summaries of matching coverage, identical text on a byte-identical twin store (modulo ids minted by the run), and a repeat with nothing to do must be a zero-byte noop; schedule decisions (noop / dry_run / skipped_inflight / scheduled / completed) must match the reference.",
             "Depth and parameter bounds; the concurrent schedule/auto sub-check of the design is covered only by C01's pair exploration (AutoCompaction/ScheduleCompaction pairs: numbering, not bracket integrity); summary text compared modulo 64-hex ids minted by the run.",
             "DESIGN.md §3 C09"),
+    "C10": ("H-histories", "exploration",
+            "bounded exhaustive enumeration of parent histories x every selector choice for branch and handoff on the real store (and status codes through the router) against a reference cut",
+            "Every parent history of <=4 (quick) / <=5 (thorough) ops over {message, answered run, open run, run_ended for the oldest open run, side effects, checkpoint} (so overlapping turns arise) x every selector {none, every from_seq in 0..head, head+1, u64::MAX, every message id, a non-message frame id, unknown uuid, non-uuid, both} x {branch, handoff with summary text / existing artifact / missing artifact / neither}: the parent's log lines must be byte-identical, a success must yield a child that is exactly [created, lineage] at seq 0,1 (next append gets 2) recording the reference cut within the parent and a resolvable summary, a refusal must add no thread and no bytes.",
+            "Depth bound; selectors over one parent thread; the router is exercised for status codes only.",
+            "DESIGN.md §3 C10"),
     "C12": ("H-inputs", "exploration",
             "bounded exhaustive input enumeration (patch documents x workspace states) against a reference map model, real apply_patch on a real directory",
             "Every patch of <=2 ops (<=3 on a reduced set in thorough) over a 4-path / 12-hunk-list alphabet plus 16 malformed envelopes is applied by the real Workspace::apply_patch (and the apply_patch tool) to every enumerated workspace state; success must equal the reference map and name exactly the touched files, failure must leave every byte unchanged.",
